@@ -332,16 +332,23 @@ def aclGate (h : Handler) (r : Req) : Option Gate :=
       | some .pathDenied => some (.refuse .aclPath)
       | none => some (.refuse .aclIdentity)
 
-def localGateWith (ws : Req → Bool) (h : Handler) (r : Req) : Gate :=
+/-- `originStr` of `getOrigin`: the Origin header, else the Referer header ("" = neither) -/
+def originStr (r : Req) : Bytes := if r.origin = [] then r.referer else r.origin
+
+/-- the checks after the ACL.  `ws` is the websocket test; `strictMissing` says whether
+    `checkOrigin` refuses an absent Origin/Referer outright (`originStr == "" || origin == nil`, the
+    code as it is now) or only an unparsable one (`origin == nil`, the code before the fix, for
+    which the absent header is the empty URL and goes on to `originAllowed`). -/
+def localGateWith (ws : Req → Bool) (strictMissing : Bool) (h : Handler) (r : Req) : Gate :=
   if ws r then .refuse .websocket
   else if h.enforceHost && !checkHost h r then .refuse .host
   else if h.enforceOrigin then
-    (if !(getOrigin r).ok then .refuse .originMissing
+    (if (strictMissing && originStr r == []) || !(getOrigin r).ok then .refuse .originMissing
      else if !originAllowed h (getOrigin r) then .refuse .originDenied
      else .pass (if r.method = sOPTIONS then 2 else 1))
   else .pass 0
 
-def localGate (h : Handler) (r : Req) : Gate := localGateWith wsCheck h r
+def localGate (h : Handler) (r : Req) : Gate := localGateWith wsCheck true h r
 
 def gate (h : Handler) (r : Req) : Gate :=
   match aclGate h r with
@@ -352,7 +359,13 @@ def gate (h : Handler) (r : Req) : Gate :=
 def gateOld (h : Handler) (r : Req) : Gate :=
   match aclGate h r with
   | some g => g
-  | none => localGateWith wsCheckOld h r
+  | none => localGateWith wsCheckOld false h r
+
+/-- the gate with the `checkOrigin` of the old code (absent header not refused outright) -/
+def gateOldOrigin (h : Handler) (r : Req) : Gate :=
+  match aclGate h r with
+  | some g => g
+  | none => localGateWith wsCheck false h r
 
 /-- which top-level statement of `serveHTTP` answers the request: the name of the refusing check,
     or "mux" when all pass (names as in the regenerated `Gen.adminGateSequence`) -/
